@@ -150,20 +150,14 @@ def splice(text, metas, contracts, unit_name):
             raise Undecided("entry marker of %s lost" % m["name"])
         located.append((pos, m))
     located.sort(key=lambda x: x[0])
-    used_contracts = set()
-    # process in reverse so offsets stay valid
-    bounds = [p for p, _ in located] + [len(text)]
+    # header start offsets are computed on the unmodified text; segments are then rewritten back to front
+    starts = [_find_fn_start(text, pos, m["name"]) for pos, m in located]
     for idx in range(len(located) - 1, -1, -1):
         pos, m = located[idx]
-        end = bounds[idx + 1]
-        if idx + 1 < len(located):
-            # end of this fn = start of next fn header
-            end = _find_fn_start(text, bounds[idx + 1], located[idx + 1][1]["name"])
-        seg_start = _find_fn_start(text, pos, m["name"])
+        end = starts[idx + 1] if idx + 1 < len(located) else len(text)
+        seg_start = starts[idx]
         seg = text[seg_start:end]
         c = contracts.get(m["name"])
-        if c is not None:
-            used_contracts.add(m["name"])
         seg = _splice_fn(seg, m, c)
         text = text[:seg_start] + seg + text[end:]
     # remove unused markers
